@@ -181,6 +181,26 @@ pub fn check_fp(c: &FpCase, st: &mut Stats) -> Result<(), String> {
                 what, pos, n, fp_val, how
             ));
         }
+        // a fault in the type / length bytes is also tried with the message sitting in a larger receive buffer (1-3
+        // and 8 further bytes behind it): a longer declared length then has something to extend over
+        if pos < 4 {
+            for extra in [1usize, 2, 3, 8] {
+                let mut longer = mutated.to_vec();
+                longer.extend(std::iter::repeat(0x5Au8).take(extra));
+                let (ok2, how2) = match guard(|| fp_accepted(&longer, lkey.as_ref())) {
+                    Guard::Ok(r) => r,
+                    Guard::LibPanic(_) => (false, "panic-on-damaged-input"),
+                    Guard::HarnessPanic(m) => return Err(format!("HARNESS-{}", m)),
+                };
+                st.evaluations += 1;
+                if ok2 {
+                    return Err(format!(
+                        "{} at byte {} and, with {} further bytes behind the {}-byte message, the bytes are accepted as carrying a valid FINGERPRINT: {}",
+                        what, pos, extra, n, how2
+                    ));
+                }
+            }
+        }
         let reg = if pos < 20 {
             "header"
         } else if pos >= fp_val {
